@@ -481,13 +481,16 @@ if __name__ == "__main__":
             "resample_jackknife, HistData.from_catalog, cov_from_samples, RedshiftData.from_corrfuncs) on numpy object arrays of "
             "z3 reals; each jackknife sample is compared by z3 with the leave-patch-k-out statistic (explicit sums and "
             "delete-and-recompute through the public constructors), the covariance with the delete-one formula, PSD via a "
-            "sum-of-squares certificate.  unsat = holds for every real-valued array content at the stated shapes.",
+            "sum-of-squares certificate.  unsat = holds for every real-valued array content at the stated shapes.  In addition "
+            "(covariance.float64.*) the covariance / error arithmetic is executed on IEEE FloatingPoint(11,53) terms and cvc5 decides "
+            "over all bit patterns with |x| <= 2^100 that rounding never yields a negative variance, a NaN error or an asymmetric matrix.",
             assumptions=[
-                "float64 modelled as exact reals (no rounding, no NaN/inf)",
+                "float64 modelled as exact reals (no rounding, no NaN/inf) except in covariance.float64.* (bit-precise binary64) and "
+                "covariance.nonfinite_sample (concrete sentinels)",
                 "claims restricted to inputs where no division by zero occurs (side conditions)",
                 "shapes bounded as listed per harness; N=1 patch not covered",
                 "iter_unordered runs in submission order here (arrival order is C05)",
             ],
-            trusted_base=["z3", "numpy object-array plumbing (einsum/tile/triu/fancy indexing)", "vf.symnp.cov/histogram kernels (conformance-tested each run)"],
+            trusted_base=["z3", "cvc5 1.0 (QF_FP)", "numpy object-array plumbing (einsum/tile/triu/fancy indexing)", "vf.symnp.cov/histogram kernels (conformance-tested each run)"],
         )
     )
